@@ -92,7 +92,7 @@ EXPECTED_PROBES = [
     "probe.page_flush_wrote", "probe.page_audit_completed", "probe.page_read_write_miss_same_page_behind_dirty_victim",
     "probe.lower_tier_hit_while_write_in_flight",
     "probe.page_write_miss_waited_for_room", "probe.page_read_landed_inside_write_miss_wait",
-    "probe.page_late_duplicate_writeback_covered_write",
+    "probe.page_writeback_completed_without_page_leaving_dirty_state",
 ]
 SHRINK_SKIP = ("family", "klass")
 
